@@ -694,7 +694,13 @@ class Continuum:
             # We retain only the leftmost unitary alignment in the best alignment of the window,
             # as it is the most likely to be in the global best alignment
             best_alignment = window.get_best_alignment(dissimilarity)
-            for chosen in best_alignment.take_until_limit(x_limit):
+            chosen_alignments = list(best_alignment.take_until_limit(x_limit))
+            if not chosen_alignments:
+                # No unitary alignment ends before the limit : the one ending first is retained,
+                # so that every iteration removes at least one unit from the copy.
+                chosen_alignments = [min(best_alignment.unitary_alignments,
+                                         key=lambda unit_align: unit_align.bounds[1])]
+            for chosen in chosen_alignments:
                 unitary_alignments.append(chosen)
                 disorders.append(chosen.disorder)
                 for annotator, unit in chosen.n_tuple:
